@@ -495,6 +495,76 @@ def run_mixed(root, idx, order):
         w.cleanup()
 
 
+class Untranslatable(Exception):
+    pass
+
+
+def _translate_make_dll():
+    """kerneldll.make_dll of the current tree, read as a build PROTOCOL (fail-closed Python-ast walk): where the compiler
+    writes, how the result gets its final name, and what the clean-up clause does.  Returns (protocol, publish_on_unwind)."""
+    import ast
+    tree = ast.parse(open(os.path.join(common.REPO, "sasmodels", "kerneldll.py")).read())
+    fn = next((n for n in tree.body if isinstance(n, ast.FunctionDef) and n.name == "make_dll"), None)
+    if fn is None:
+        raise Untranslatable("make_dll not found")
+    guard = next((n for n in fn.body if isinstance(n, ast.If) and ast.unparse(n.test) == "not os.path.exists(dll)"), None)
+    if guard is None:
+        raise Untranslatable("no 'if not os.path.exists(dll)' around the build")
+    calls = [n for n in ast.walk(guard) if isinstance(n, ast.Call) and ast.unparse(n.func) == "compile_model"]
+    if len(calls) != 1:
+        raise Untranslatable("%d calls of compile_model" % len(calls))
+    kw = {k.arg: ast.unparse(k.value) for k in calls[0].keywords}
+    if calls[0].args or set(kw) != {"source", "output"}:
+        raise Untranslatable("compile_model is not called as compile_model(source=..., output=...)")
+    out = kw["output"]
+    if out == "dll":
+        return "InPlace", False
+    tries = [n for n in ast.walk(guard) if isinstance(n, ast.Try) and any(c is calls[0] for b in n.body for c in ast.walk(b))]
+    if len(tries) != 1:
+        raise Untranslatable("the compiler call is not inside one try statement")
+    tr = tries[0]
+    body = [ast.unparse(b) for b in tr.body]
+    if body != ["compile_model(source=%s, output=%s)" % (kw["source"], out), "os.replace(%s, dll)" % out]:
+        raise Untranslatable("the try body is not [compile to the temporary; os.replace(temporary, dll)]: %s" % body)
+    if tr.handlers or tr.orelse:
+        raise Untranslatable("the build has except / else clauses")
+    fin = [ast.unparse(b) for b in tr.finalbody]
+    if fin == ["if os.path.exists(%s):\n    os.unlink(%s)" % (out, out)]:
+        unwind = False
+    elif any("replace" in f or "rename" in f or "move" in f for f in fin):
+        unwind = True
+    else:
+        raise Untranslatable("unexpected clean-up clause: %s" % fin)
+    # the temporary: next to the final name (same directory, hence same filesystem: the rename is atomic), one per builder
+    assigns = {ast.unparse(n.targets[0]): ast.unparse(n.value) for n in ast.walk(guard) if isinstance(n, ast.Assign) and len(n.targets) == 1}
+    if assigns.get("(base, ext)", assigns.get("base, ext")) != "splitext(dll)":
+        raise Untranslatable("the temporary name is not derived from the final name")
+    if assigns.get(out) != "'%s_%d_%s%s' % (base, os.getpid(), uuid.uuid4().hex[:8], ext)":
+        raise Untranslatable("the temporary name is not <final>_<pid>_<uuid><ext>: %s" % assigns.get(out))
+    return "Rename", unwind
+
+
+def gen():
+    """Regenerate Gen/C18_code.v from the text of kerneldll.make_dll."""
+    lines = ["(* GENERATED by harness/c18.py from sasmodels/kerneldll.py (make_dll read as a build protocol) *)",
+             "From SM Require Import C18.Model.", ""]
+    note = None
+    try:
+        proto, unwind = _translate_make_dll()
+    except (Untranslatable, OSError, SyntaxError) as exc:
+        note = "%s: %s" % (type(exc).__name__, exc)
+        proto, unwind = "Rename", False
+    lines.append("Definition translated : bool := %s." % ("true" if note is None else "false"))
+    if note:
+        lines.append("(* not translated: %s *)" % note.replace("*)", "* )"))
+    lines += ["(* where the compiler writes and how the result gets its final name *)",
+              "Definition code_protocol : protocol := %s." % proto,
+              "(* does the clean-up clause give the temporary the final name? *)",
+              "Definition code_publish_on_unwind : bool := %s." % ("true" if unwind else "false"), ""]
+    common.write_if_changed(os.path.join(common.THEORIES, "Gen", "C18_code.v"), "\n".join(lines))
+    return note
+
+
 def all_schedules(nproc, steps=4):
     base = []
     for p in range(1, nproc + 1):
@@ -505,7 +575,12 @@ def all_schedules(nproc, steps=4):
 def main(run):
     rng = random.Random(run.seed * 613 + 18)
     thorough = run.tier == "thorough"
-    run.prove(["C18/Property.v"])
+    note = []
+    run.prove(["C18/Property.v"], gen=lambda: note.append(gen()))
+    if note and note[0]:
+        run.notes.append("make_dll not translated (%s): the source-text obligations C18_code_* are vacuous in this run, the behavioural tie decides" % note[0])
+    else:
+        run.notes.append("make_dll read as a build protocol from the current kerneldll.py (Gen/C18_code.v): compile to <final>_<pid>_<uuid>, os.replace, clean-up unlinks; C18_code_publish_safe / C18_code_unwind_safe are the safety theorems about THAT protocol")
     root = run.scratch.sub("c18")
     scheds = []
     # corpus first: the two histories that break in-place compilation
